@@ -13,7 +13,9 @@ Definition backend_scripts : list prog :=
     f_name; f_status; f_uids; f_cpu_times; f_memory_info ].
 (* queries that consult the OS on EVERY call: the above, cwd(), ppid(), and what exe() / create_time() do when their
    memo is empty *)
-Definition consulting_scripts : list prog := backend_scripts ++ [ i_cwd; i_exe; exe_body; create_time_body; f_ppid ].
+Definition link_scripts : list prog := [ i_cwd; i_exe; exe_body ].        (* those that go through _readlink() *)
+Definition core_scripts : list prog := backend_scripts ++ [ create_time_body; f_ppid ].
+Definition consulting_scripts : list prog := core_scripts ++ link_scripts.
 (* front-end accessors that memoise their first answer: (flag of the memo, what they do when it is empty) *)
 Definition cached_table : list (nat * prog) :=
   [ (F_EXE, exe_body); (F_CTIME, create_time_body); (F_EXITCODE, wait_body) ].
@@ -34,38 +36,39 @@ Definition tree_scripts : list prog :=
   [ f_parent; f_parents; f_children; f_children_rec; f_iter iter_attrs;
     f_iter [ppid_of Any FStatE; name_of Any FStatE FCmdlineE] ].
 
-Lemma methods_table : forallb (well_guarded opt_links) (block_scripts ++ linux_scripts) = true.
+(* [opt_half]: the widest class -- optional links and racing files, and /proc/<pid> may survive its entries *)
+Lemma methods_table : forallb (well_guarded opt_half) (block_scripts ++ linux_scripts) = true.
 Proof. vm_compute. reflexivity. Qed.
-Lemma sticky_table : forallb (gone_guarded opt_links) consulting_scripts = true.
+Lemma sticky_table : forallb (gone_guarded opt_half) consulting_scripts = true.
 Proof. vm_compute. reflexivity. Qed.
-Lemma tree_table : forallb (tree_guarded opt_links) tree_scripts = true.
+Lemma tree_table : forallb (tree_guarded opt_half) tree_scripts = true.
 Proof. vm_compute. reflexivity. Qed.
-Lemma wait_table : wait_guarded opt_links f_wait = true /\ wait_guarded opt_links wait_body = true.
+Lemma wait_table : wait_guarded opt_half f_wait = true /\ wait_guarded opt_half wait_body = true.
 Proof. split; vm_compute; reflexivity. Qed.
-Lemma exempt_table : forallb (gone_value opt_links) [ f_is_running; wait_body ] = true.
+Lemma exempt_table : forallb (gone_value opt_half) [ f_is_running; wait_body ] = true.
 Proof. vm_compute. reflexivity. Qed.
 
-Theorem linux_methods_sound : forall w, base_ok opt_links w -> forall p, In p (block_scripts ++ linux_scripts) ->
+Theorem linux_methods_sound : forall w, base_ok opt_half w -> forall p, In p (block_scripts ++ linux_scripts) ->
   forall s, s_cache s = false -> allowed (fst (run w p s)) (gone w (snd (run w p s))).
 Proof.
   intros w Hb p Hp s Hc.
-  exact (well_guarded_sound_w w opt_links Hb p (proj1 (forallb_forall _ _) methods_table p Hp) s Hc).
+  exact (well_guarded_sound_w w opt_half Hb p (proj1 (forallb_forall _ _) methods_table p Hp) s Hc).
 Qed.
-Theorem gone_sticky : forall w, base_ok opt_links w -> forall p, In p consulting_scripts ->
+Theorem gone_sticky : forall w, base_ok opt_half w -> forall p, In p consulting_scripts ->
   forall s, s_cache s = false -> gone w s = true -> fst (run w p s) = RExc (XNSP Self).
 Proof.
   intros w Hb p Hp s Hc Hg.
-  exact (gone_guarded_sound_w w opt_links Hb p (proj1 (forallb_forall _ _) sticky_table p Hp) s Hc Hg).
+  exact (gone_guarded_sound_w w opt_half Hb p (proj1 (forallb_forall _ _) sticky_table p Hp) s Hc Hg).
 Qed.
-Theorem tree_methods_sound : forall w, base_ok opt_links w -> forall p, In p tree_scripts ->
+Theorem tree_methods_sound : forall w, base_ok opt_half w -> forall p, In p tree_scripts ->
   forall s, s_cache s = false -> allowed_tree (fst (run w p s)) (gone w (snd (run w p s))).
 Proof.
   intros w Hb p Hp s Hc.
-  exact (tree_guarded_sound_w w opt_links Hb p (proj1 (forallb_forall _ _) tree_table p Hp) s Hc).
+  exact (tree_guarded_sound_w w opt_half Hb p (proj1 (forallb_forall _ _) tree_table p Hp) s Hc).
 Qed.
-Theorem wait_sound : forall w, base_ok opt_links w ->
+Theorem wait_sound : forall w, base_ok opt_half w ->
   forall s, s_cache s = false -> allowed_wait (fst (run w f_wait s)) (gone w (snd (run w f_wait s))).
-Proof. intros w Hb s Hc. exact (wait_guarded_sound_w w opt_links Hb f_wait (proj1 wait_table) s Hc). Qed.
+Proof. intros w Hb s Hc. exact (wait_guarded_sound_w w opt_half Hb f_wait (proj1 wait_table) s Hc). Qed.
 
 (* the memoising accessors: with the memo set they answer without touching the OS (that is why a later call on a
    vanished process may still answer); with the memo empty they are ordinary OS-consulting queries *)
@@ -80,14 +83,15 @@ Proof.
   - intros Hne. unfold cached_table in Hin. simpl in Hin.
     destruct Hin as [E | [E | [E | []]]]; inversion E; subst;
       try (exfalso; apply Hne; reflexivity);
-      unfold consulting_scripts; apply in_or_app; right; simpl; auto.
+      unfold consulting_scripts, core_scripts, link_scripts, backend_scripts; simpl;
+      repeat (first [ left; reflexivity | right ]).
 Qed.
 (* is_running() and wait() are the two queries that answer (False / None) instead of raising once the process is gone *)
-Theorem gone_exempt : forall w, base_ok opt_links w -> forall p, In p [ f_is_running; wait_body ] ->
+Theorem gone_exempt : forall w, base_ok opt_half w -> forall p, In p [ f_is_running; wait_body ] ->
   forall s, s_cache s = false -> gone w s = true -> fst (run w p s) = RVal.
 Proof.
   intros w Hb p Hp s Hc Hg.
-  exact (gone_value_sound_w w opt_links Hb p (proj1 (forallb_forall _ _) exempt_table p Hp) s Hc Hg).
+  exact (gone_value_sound_w w opt_half Hb p (proj1 (forallb_forall _ _) exempt_table p Hp) s Hc Hg).
 Qed.
 
 (* ---- the harness's concrete worlds satisfy the hypothesis (so the theorems are not vacuous) *)
@@ -100,46 +104,63 @@ Definition y0 : layout :=
      y_del_fd := "3"; y_maps_del := ["lib.so (deleted)"]; y_devs := ["pts0"; "tty1"] |}.
 
 Ltac ifs := repeat match goal with |- context [if ?c then _ else _] => destruct c end.
-(* all four base kinds, every schedule of vanishing (the process, other processes) and refusals *)
-Lemma base_ok_worlds_links : forall y kind v d ov ln gu, (kind <= 3)%nat -> base_ok opt_links (mk_world y kind v d ov ln gu).
+(* all four base kinds, every schedule of vanishing (whole directory or half-removed; other processes) and refusals *)
+Lemma base_ok_worlds_half : forall y kind v h d ov ln gu, (kind <= 3)%nat -> base_ok opt_half (mk_world y kind v h d ov ln gu).
 Proof.
-  intros y kind v d ov ln gu Hk.
+  intros y kind v h d ov ln gu Hk.
   assert (kind = 0 \/ kind = 1 \/ kind = 2 \/ kind = 3)%nat as [-> | [-> | [-> | ->]]] by lia;
     intros g [k x f] cur; unfold rwho; simpl;
-    destruct x; simpl; try exact I; ifs; destruct f, k; simpl; ifs; reflexivity.
+    destruct x; simpl; try exact I; ifs;
+    try (split; [| intros _ Hp; destruct f; try discriminate Hp; reflexivity]);
+    destruct f, k; simpl; ifs; reflexivity.
 Qed.
 
 Example cmdline_example :
-  let w := mk_world y0 2 (Some 1%nat) [0%nat] [] true true in
+  let w := mk_world y0 2 (Some 1%nat) false [0%nat] [] true true in
   allowed (fst (run w i_cmdline st0)) (gone w (snd (run w i_cmdline st0))).
 Proof.
   intro w. apply linux_methods_sound; auto.
-  - apply base_ok_worlds_links. lia.
-  - unfold linux_scripts, consulting_scripts, backend_scripts. apply in_or_app. right. simpl. auto 10.
+  - apply base_ok_worlds_half. lia.
+  - unfold linux_scripts, consulting_scripts, core_scripts, backend_scripts. apply in_or_app. right. simpl. auto 10.
 Qed.
 (* a child vanishing between the ppid_map snapshot and its Process() construction is simply left out *)
 Example child_vanishes_example :
-  fst (run (mk_world y0 0 None [] [("5001", 12%nat)] true true) f_children_rec st0) = RVal.
+  fst (run (mk_world y0 0 None false [] [("5001", 12%nat)] true true) f_children_rec st0) = RVal.
 Proof. vm_compute. reflexivity. Qed.
 
 (* ---- the defects that were repaired (commits 1c63e73, 4ee76b0, a4fac6f): the scripts of the code BEFORE
         the repairs ([legacy_*] in Model.v) break the property on single-refusal schedules *)
 (* kernel thread, the lexists probe of _readlink refused: exe() let a bare FileNotFoundError out *)
 Theorem legacy_exe_kthread_refuted :
-  fst (run (mk_world y0 1 None [1%nat] [] true true) legacy_f_exe st0) = RExc XFnf.
+  fst (run (mk_world y0 1 None false [1%nat] [] true true) legacy_f_exe st0) = RExc XFnf.
 Proof. vm_compute. reflexivity. Qed.
 (* another pid's stat refused while ppid_map() walks the process list: bare PermissionError *)
 Theorem legacy_children_refuted :
-  fst (run (mk_world y0 0 None [5%nat] [] true true) legacy_f_children st0) = RExc XPerm.
+  fst (run (mk_world y0 0 None false [5%nat] [] true true) legacy_f_children st0) = RExc XPerm.
 Proof. vm_compute. reflexivity. Qed.
 (* the identity re-check of is_running() refused: NoSuchProcess for a process that is there *)
 Theorem legacy_ppid_refuted :
-  let w := mk_world y0 0 None [0%nat] [] true true in
+  let w := mk_world y0 0 None false [0%nat] [] true true in
   fst (run w legacy_f_ppid st0) = RExc (XNSP Self) /\ gone w (snd (run w legacy_f_ppid st0)) = false.
 Proof. vm_compute. split; reflexivity. Qed.
 (* ... and the same schedules on the current scripts are instances of the theorems *)
 Example repaired_schedules :
-  fst (run (mk_world y0 1 None [1%nat] [] true true) f_exe st0) = RExc (XAD Self) /\
-  fst (run (mk_world y0 0 None [5%nat] [] true true) f_children st0) = RVal /\
-  fst (run (mk_world y0 0 None [0%nat] [] true true) f_ppid st0) = RVal.
+  fst (run (mk_world y0 1 None false [1%nat] [] true true) f_exe st0) = RExc (XAD Self) /\
+  fst (run (mk_world y0 0 None false [5%nat] [] true true) f_children st0) = RVal /\
+  fst (run (mk_world y0 0 None false [0%nat] [] true true) f_ppid st0) = RVal.
+Proof. vm_compute. repeat split; reflexivity. Qed.
+
+(* ---- repaired by commit 1195393: in the half-removed state (upstream issue 2418: the entries below /proc/<pid> are
+        gone, the directory still answers) the os.lstat('/proc/<pid>') probe of _readlink() succeeded, so cwd()
+        returned its fallback '' for a process that is gone instead of raising NoSuchProcess *)
+Theorem legacy_cwd_half_removed_refuted :
+  let w := mk_world y0 0 (Some 0%nat) true [] [] true true in
+  fst (run w legacy_dir_i_cwd st0) = RVal /\ gone w (snd (run w legacy_dir_i_cwd st0)) = true.
+Proof. vm_compute. split; reflexivity. Qed.
+(* ... the current script in the same state, and any other query in the half-removed state *)
+Example half_removed_examples :
+  fst (run (mk_world y0 0 (Some 0%nat) true [] [] true true) i_cwd st0) = RExc (XNSP Self) /\
+  fst (run (mk_world y0 0 (Some 0%nat) false [] [] true true) i_cwd st0) = RExc (XNSP Self) /\
+  fst (run (mk_world y0 0 (Some 0%nat) true [] [] true true) f_name st0) = RExc (XNSP Self) /\
+  fst (run (mk_world y0 0 (Some 0%nat) true [] [] true true) f_exe st0) = RExc (XNSP Self).
 Proof. vm_compute. repeat split; reflexivity. Qed.
